@@ -680,26 +680,36 @@ func (li LineItem) webVTTBytes(previous, next *LineItem) (c []byte) {
 	if color != "" {
 		c = append(c, []byte("<c."+color+">")...)
 	}
+	// Only the tags beyond the ones shared with the previous item are opened, and only the tags
+	// beyond the ones shared with the next item are closed, so that tags stay properly nested
 	if li.InlineStyle != nil {
-		for idx, tag := range li.InlineStyle.WebVTTTags {
-			if previous != nil && previous.InlineStyle != nil && len(previous.InlineStyle.WebVTTTags) > idx && tag.Name == previous.InlineStyle.WebVTTTags[idx].Name {
-				continue
-			}
+		for _, tag := range li.InlineStyle.WebVTTTags[webVTTCommonTags(li, previous):] {
 			c = append(c, []byte(tag.startTag())...)
 		}
 	}
 	c = append(c, []byte(escapeHTML(li.Text))...)
 	if li.InlineStyle != nil {
-		for i := len(li.InlineStyle.WebVTTTags) - 1; i >= 0; i-- {
-			tag := li.InlineStyle.WebVTTTags[i]
-			if next != nil && next.InlineStyle != nil && len(next.InlineStyle.WebVTTTags) > i && tag.Name == next.InlineStyle.WebVTTTags[i].Name {
-				continue
-			}
-			c = append(c, []byte(tag.endTag())...)
+		for i := len(li.InlineStyle.WebVTTTags) - 1; i >= webVTTCommonTags(li, next); i-- {
+			c = append(c, []byte(li.InlineStyle.WebVTTTags[i].endTag())...)
 		}
 	}
 	if color != "" {
 		c = append(c, []byte("</c>")...)
+	}
+	return
+}
+
+// webVTTCommonTags returns the number of leading tags (name, classes and annotation) li shares with other
+func webVTTCommonTags(li LineItem, other *LineItem) (n int) {
+	if li.InlineStyle == nil || other == nil || other.InlineStyle == nil {
+		return
+	}
+	for n < len(li.InlineStyle.WebVTTTags) && n < len(other.InlineStyle.WebVTTTags) {
+		a, b := li.InlineStyle.WebVTTTags[n], other.InlineStyle.WebVTTTags[n]
+		if a.Name != b.Name || a.Annotation != b.Annotation || strings.Join(a.Classes, ".") != strings.Join(b.Classes, ".") {
+			break
+		}
+		n++
 	}
 	return
 }
